@@ -3,6 +3,18 @@
 E1 (BFS over event histories on a real cache folder, deviation-bounded) + E3 (every prefix of a
 stored pickle).  Events act on one cache folder and one process; the clock and the pymoca version
 are seams owned by the harness.  See DESIGN.md C01.
+
+Two things the statement covers beyond "three unrelated texts, results only looked at":
+* "for any text": the alphabet holds a family of *near-duplicate* texts -- a base text OK3 and its image under
+  each member of a stated family of text normalisations (line endings, trailing blanks, blank runs, tabs,
+  letter case, accents, Unicode composition).  Every member is a different text with a different tree, so a
+  cache key that identifies two of them serves one the tree of the other.  Each is compared with ITS OWN
+  uncached parse.
+* "returns a tree structurally identical to an uncached parse": the caller owns what parse() returned.  As
+  real callers do (tools/compiler.py: Tree.extend), the harness edits every returned tree in place after it
+  has been compared -- every mutable container and every pymoca object reachable from it -- and keeps it
+  alive.  A later result that shares any mutable object with an earlier one therefore differs from the
+  uncached parse.  The number of results handed out per text in this process is part of the abstract state.
 """
 import contextlib
 import hashlib
@@ -11,7 +23,9 @@ import io
 import os
 import pickle
 import shutil
+import re
 import sqlite3
+import unicodedata
 from pathlib import Path
 
 from vf.core import bfs, common, dump
@@ -23,6 +37,41 @@ TEXTS = {
     "OK2": "model B\n  parameter Integer n = 3;\n  Real y[n];\n  A.C z;\nequation\n  for i in 1:n loop\n    y[i] = i;\n  end for;\nend B;\n",
     "BAD": "model A\n  Real x\nequation\n  x = ;\nend A;\n",
 }
+
+# ---- near-duplicate family ------------------------------------------------------
+# OK3 carries, inside a string literal (so that it is part of the tree), one feature per normalisation: a line
+# break, a blank before the line break, a run of two blanks, a tab (at a column where expandtabs() and
+# "tab -> blank" agree), upper-case letters, a composed accented letter; plus a description string with a line
+# break.  A variant is the image of OK3 under ONE transformation; a key function that applies the matching
+# normalisation (or a coarser one) maps OK3 and the variant -- and often two variants -- to one key.
+OK3 = (
+    "model Tank\n"
+    '  parameter String unit = "level \n'
+    'in  Met\tres caf\u00e9";\n'
+    '  Real h "water level\n'
+    'above the outlet";\n'
+    "equation\n"
+    "  der(h) = -h;\n"
+    "end Tank;\n"
+)
+NEAR = {
+    "crlf": lambda t: t.replace("\n", "\r\n"),  # universal newlines, CRLF -> LF, splitlines()
+    "rstrip": lambda t: "\n".join(ln.rstrip() for ln in t.split("\n")),  # trailing blanks of a line
+    "ws": lambda t: re.sub(r"[ \t]+", " ", t),  # runs of blanks (also: " ".join(t.split()))
+    "tab": lambda t: t.expandtabs(),  # == t.replace("\t", " ") by construction of OK3
+    "lower": lambda t: t.lower(),  # lower() / casefold()
+    "accent": lambda t: t.replace("\u00e9", "\u00e8"),  # encode(errors="ignore"/"replace"), accent stripping
+    "nfd": lambda t: unicodedata.normalize("NFD", t),  # NFC / NFD / NFKC / NFKD
+}
+assert OK3.expandtabs() == OK3.replace("\t", " ")
+TEXTS["OK3"] = OK3
+for _k, _f in NEAR.items():
+    TEXTS["OK3~" + _k] = _f(OK3)
+assert len(set(TEXTS.values())) == len(TEXTS)
+FAMILY = ["OK3"] + ["OK3~" + k for k in NEAR]
+SCRIBBLE = "\x00vf-edited-by-caller"
+HANDED_CAP = {"quick": 2, "thorough": 3}
+
 DAY_NS = 86400 * 10**9
 VERSIONS = {"v1": "9.9.1", "v2": "9.9.2", "v1.dirty": "9.9.1.dirty"}
 DB = "model_txt_cache.db"
@@ -52,6 +101,7 @@ GONE_MODULE = _gone_pickle("vf_gone_mod", "Gone")
 GONE_ATTR = None  # built on first use (needs pymoca.ast imported from the subject tree)
 
 _CFG = {"tier": "quick"}
+_OTHER = {}  # the valid-but-different tree that ENTRY other-version-differs stores (one pickle per process)
 _FRESH = {}
 
 
@@ -79,6 +129,10 @@ def all_events(tier):
     for e, u in flag_sets(tier):
         for t in ("OK1", "OK2", "BAD"):
             evs.append(("P", t, e, u))
+    # the near-duplicates differ from each other only in what the key is computed from, which the flags do not
+    # touch: default flags only
+    for t in FAMILY:
+        evs.append(("P", t, 30, False))
     evs += [("VER", v) for v in VERSIONS]
     evs += [("CLK", 2), ("CLK", 40)]
     evs += [("ENTRY", k) for k in ("empty", "half", "garbage", "gone-module", "gone-class", "other-version-differs")]
@@ -88,16 +142,72 @@ def all_events(tier):
     return evs
 
 
+_FAMILY = frozenset(FAMILY)
+
+
 def is_deviation(ev):
-    return ev[0] in ("VER", "CLK", "ENTRY", "LAYOUT", "FILE")
+    """Faults, version changes and clock jumps -- and a parse of a near-duplicate text: two of them (a colliding
+    pair) fit the quick budget together with free events, a pair plus a fault the thorough one."""
+    return ev[0] in ("VER", "CLK", "ENTRY", "LAYOUT", "FILE") or (ev[0] == "P" and ev[1] in _FAMILY)
+
+
+def scribble(tree):
+    """Edit in place every mutable container and every pymoca object reachable from `tree` (what a caller that
+    owns the tree may do; Tree.extend is one instance).  Each edit changes the object's structural dump, so an
+    object that was edited and turns up inside a later result makes that result differ from a pristine parse.
+    Classes, functions, modules, enum members and objects of other libraries are not the caller's to edit."""
+    import enum
+    import types
+
+    seen = set()
+    stack = [tree]
+    n = 0
+    while stack:
+        x = stack.pop()
+        if x is None or isinstance(x, (bool, int, float, str, bytes, enum.Enum, type, types.ModuleType, types.FunctionType, types.MethodType)):
+            continue
+        if id(x) in seen:
+            continue
+        seen.add(id(x))
+        if isinstance(x, dict):
+            stack.extend(x.values())
+            x[SCRIBBLE] = SCRIBBLE
+            n += 1
+        elif isinstance(x, list):
+            stack.extend(x)
+            x.append(SCRIBBLE)
+            n += 1
+        elif isinstance(x, set):
+            stack.extend(x)
+            x.add(SCRIBBLE)
+            n += 1
+        elif isinstance(x, (tuple, frozenset)):
+            stack.extend(x)
+        elif type(x).__module__.split(".")[0] == "pymoca" and isinstance(getattr(x, "__dict__", None), dict):
+            stack.extend(x.__dict__.values())
+            x.__dict__[SCRIBBLE] = SCRIBBLE
+            n += 1
+    return n
 
 
 def fresh_dump(t):
+    """Dump of the uncached parse of text t -- the reference.  Also establishes, once per text and process, that
+    the caller-side edit is visible in a dump and that it cannot reach a later *uncached* parse (so that a
+    difference seen after a cached parse is the cache's doing)."""
     if t not in _FRESH:
         from pymoca import parser
 
-        tree = parser.parse(TEXTS[t], bypass_cache=True)
-        _FRESH[t] = None if tree is None else dump.dump(tree)
+        with contextlib.redirect_stderr(io.StringIO()):
+            tree = parser.parse(TEXTS[t], bypass_cache=True)
+        if tree is None:
+            _FRESH[t] = None
+        else:
+            d = dump.dump(tree)
+            if not scribble(tree) or dump.dump(tree) == d:
+                raise RuntimeError("harness: the in-place edit of a tree is not visible in its dump")
+            if dump.dump(parser.parse(TEXTS[t], bypass_cache=True)) != d:
+                raise RuntimeError("harness: editing one uncached parse of %s changes the next uncached parse" % t)
+            _FRESH[t] = d
     return _FRESH[t]
 
 
@@ -120,6 +230,8 @@ class World:
         pymoca.__version__ = VERSIONS["v1"]
         self.folder = Path(common.new_scratch("c01"))
         self.initialised = False
+        self.handed = {}  # text -> number of trees parse() has handed to the caller in this process
+        self.kept = []  # the caller keeps (and has edited) every tree it was given
         self.viol = []
 
     @property
@@ -132,7 +244,7 @@ class World:
         for f in os.listdir(self.folder):
             with open(self.folder / f, "rb") as fh:
                 files[f] = fh.read()
-        return {"files": files, "clock": self.clock.now, "version": self.version, "initialised": self.initialised}
+        return {"files": files, "clock": self.clock.now, "version": self.version, "initialised": self.initialised, "handed": dict(self.handed)}
 
     def restore(self, snap):
         """Bring the world back to `snap`.  An initialised state must stay in this folder (the path is what the
@@ -148,6 +260,7 @@ class World:
         self.version = snap["version"]
         self.pymoca.__version__ = VERSIONS[self.version]
         self.initialised = snap["initialised"]
+        self.handed = dict(snap["handed"])
         self.parser.time = self.clock
 
     # -- events ----------------------------------------------------------------
@@ -170,7 +283,12 @@ class World:
     def enabled(self, ev):
         k = ev[0]
         if k == "VER":
-            return ev[1] != self.version
+            if ev[1] == self.version:
+                return False
+            # an entry "written by another version with a different tree" (ENTRY other-version-differs) is a
+            # legitimate cache content only while that version is not the running one
+            tgt = VERSIONS[ev[1]]
+            return not any(r[1] == tgt and bytes(r[2] or b"") == _OTHER.get("data") for r in (self.rows() or ()))
         if k == "ENTRY":
             rows = self.rows()
             if ev[1] == "other-version-differs":
@@ -192,6 +310,7 @@ class World:
             importlib.reload(self.parser)
             self.parser.time = self.clock
             self.initialised = False
+            self.handed = {}  # a new process has handed out nothing
         elif k == "VER":
             self.version = ev[1]
             self.pymoca.__version__ = VERSIONS[ev[1]]
@@ -220,6 +339,8 @@ class World:
                 self.initialised = self._path_remembered()
             return
         exp = fresh_dump(t)
+        if tree is not None:
+            self.handed[t] = self.handed.get(t, 0) + 1
         if exp is None:
             if tree is not None:
                 self.viol.append(("tree-for-syntax-error", "parse(%s) returned a tree for a text with a syntax error" % t))
@@ -231,7 +352,18 @@ class World:
             except Exception as ex:
                 got = ("undumpable", repr(ex))
             if got != exp:
-                self.viol.append(("tree-differs-from-uncached", "parse(%s) differs from the uncached parse: %s" % (t, dump.first_diff(got, exp))))
+                if any("vf-edited-by-caller" in repr(x) for x in got):
+                    self.viol.append(("tree-shared-with-earlier-result", "parse(%s) returned a tree that shares an object with a tree returned earlier "
+                                      "(the caller's in-place edit of the earlier result shows in it): %s" % (t, dump.first_diff(got, exp))))
+                else:
+                    self.viol.append(("tree-differs-from-uncached", "parse(%s) differs from the uncached parse: %s" % (t, dump.first_diff(got, exp))))
+        if tree is not None:
+            # the tree is the caller's now: it edits it in place and keeps it
+            try:
+                scribble(tree)
+            except Exception:
+                pass  # a malformed result has been reported above
+            self.kept.append(tree)
         if dirty:
             if self.snapshot()["files"] != before:
                 self.viol.append(("dirty-version-touches-cache", "a .dirty version changed the cache folder"))
@@ -247,7 +379,9 @@ class World:
         if kind == "other-version-differs":
             from pymoca import parser
 
-            other = pickle.dumps(parser.parse("model Z\n  Real q;\nend Z;\n", bypass_cache=True))
+            if "data" not in _OTHER:
+                _OTHER["data"] = pickle.dumps(parser.parse("model Z\n  Real q;\nend Z;\n", bypass_cache=True))
+            other = _OTHER["data"]
             c.execute("UPDATE models SET data=? WHERE pymoca_version<>?", (other, VERSIONS[self.version]))
             c.commit()
             c.close()
@@ -344,7 +478,8 @@ class World:
 
     def key(self):
         p = self.dbpath
-        base = (self.version, self.initialised)
+        cap = HANDED_CAP[_CFG["tier"]]
+        base = (self.version, self.initialised, tuple(sorted((t, min(n, cap)) for t, n in self.handed.items())))
         if not os.path.exists(p):
             return base + ("absent",)
         with open(p, "rb") as f:
@@ -407,6 +542,8 @@ def build(hist):
     w.version = "v1"
     w.pymoca.__version__ = VERSIONS["v1"]
     w.initialised = False
+    w.handed = {}
+    w.kept = []
     for ev in hist:
         w.apply(tuple(ev))
     return w
@@ -417,6 +554,7 @@ def expand(hist):
     w = build(hist)
     base = w.snapshot()
     folder0 = w.folder
+    clean = True  # nothing has run in this process since the history was replayed
     for ev in _CFG["events"]:
         w.folder = folder0
         w.restore(base)
@@ -425,13 +563,29 @@ def expand(hist):
         try:
             viol = list(w.apply(ev))
             key = w.key()
+            if viol and not clean:
+                # restore() puts back the folder, the clock and the version, not what the process may remember of
+                # the sibling events tried before this one: a verdict counts only if it follows from the history alone
+                w = build(hist)
+                base = w.snapshot()
+                folder0 = w.folder
+                viol = list(w.apply(ev))
+                key = w.key()
         except Exception as ex:  # harness trouble, not a verdict about pymoca
             raise RuntimeError("harness failure on %r after %r: %r" % (ev, hist, ex)) from ex
-        out.append({"ev": list(ev), "key": key, "viol": viol, "dev": 1 if is_deviation(ev) else 0, "stop": bool(viol)})
+        clean = False
+        rec = {"ev": list(ev), "key": key, "viol": viol, "dev": 1 if is_deviation(ev) else 0, "stop": bool(viol)}
+        if ev[0] == "P":
+            # what makes this parse non-trivial for the two widened clauses (tallied by run())
+            others = sorted({h[1] for h in hist if h[0] == "P" and h[1] in _FAMILY and h[1] != ev[1]}) if ev[1] in _FAMILY else []
+            rec["pairs"] = [[a, ev[1]] for a in others]
+            rec["after_edit"] = min(base["handed"].get(ev[1], 0), 3)  # results of this text already handed out and edited
+        out.append(rec)
     for f in os.listdir(common.scratch_root()):  # scratch_root() is private to this worker
         if f.startswith("c01_"):
             shutil.rmtree(os.path.join(common.scratch_root(), f), ignore_errors=True)
     w.folder = Path(common.new_scratch("c01"))
+    w.kept = []
     return out
 
 
@@ -459,12 +613,44 @@ def pickle_len(t):
     return len(pickle.dumps(parser.parse(TEXTS[t], bypass_cache=True)))
 
 
+class _Tally:
+    """Pool front that counts, over all executed transitions, the parses that exercise the widened clauses."""
+
+    def __init__(self, pool):
+        self.pool = pool
+        self.pairs = set()
+        self.pair_parses = 0
+        self.after_edit = {1: 0, 2: 0, 3: 0}
+        import time
+
+        self.t0 = time.time()
+
+    def map(self, fn, items):
+        if os.environ.get("VERIF_PROGRESS"):
+            import sys
+            import time
+
+            self.level = getattr(self, "level", 0) + 1
+            print("C01 level %d: expanding %d states (%d transitions so far, t=%.0fs, cpu=%.0fs)" % (self.level, len(items), getattr(self, "done", 0), time.time() - self.t0, sum(os.times()[:4])), file=sys.stderr, flush=True)
+        res = self.pool.map(fn, items)
+        self.done = getattr(self, "done", 0) + sum(len(r) for r in res)
+        for recs in res:
+            for r in recs:
+                for pr in r.get("pairs", ()):
+                    self.pairs.add(tuple(pr))
+                self.pair_parses += 1 if r.get("pairs") else 0
+                if r.get("after_edit"):
+                    self.after_edit[r["after_edit"]] += 1
+        return res
+
+
 def run(ctx):
     _init(ctx.tier)
     depth, devs = (4, 2) if ctx.tier == "quick" else (6, 3)
     with common.Pool(init=_init, initargs=(ctx.tier,)) as pool:
         w0 = build(())
-        st = bfs.search(ctx, pool, expand, init_key=w0.key(), max_depth=depth, max_dev=devs)
+        tally = _Tally(pool)
+        st = bfs.search(ctx, tally, expand, init_key=w0.key(), max_depth=depth, max_dev=devs)
         jobs = []
         for t in ("OK1", "OK2"):
             n = pickle_len(t)
@@ -487,20 +673,34 @@ def run(ctx):
             "evaluations": st["transitions"] + len(jobs),
             "distinct_nontrivial": max(0, st["states"] - 1),
             "pickle_prefixes": len(jobs),
+            "near_duplicate_texts": len(FAMILY),
+            "near_duplicate_ordered_pairs_parsed": len(tally.pairs),
+            "near_duplicate_ordered_pairs_possible": len(FAMILY) * (len(FAMILY) - 1),
+            "parses_after_a_near_duplicate": tally.pair_parses,
+            "parses_after_1_2_3plus_edited_results_of_same_text": [tally.after_edit[1], tally.after_edit[2], tally.after_edit[3]],
             "exhaustive": True,
-            "bound": {"history_length": depth, "deviations": devs},
+            "bound": {"history_length": depth, "deviations": devs, "results_per_text_distinguished": HANDED_CAP[ctx.tier]},
             "rule": "all histories of length <= %d with <= %d deviations (version change, clock jump, entry / layout / file "
-            "fault) over %d events: parse(text in OK1/OK2/BAD, expiration, always_update), module reload, versions "
-            "v1/v2/v1.dirty, clock +2d/+40d, stored pickle emptied/halved/garbage/class-gone, tables re-laid-out or dropped, "
-            "metadata keys deleted, file garbage/truncated/zero/deleted; state = abstraction of the database (layouts, "
-            "metadata keys, rows with data hash and age bucket), process-initialised flag, version; every parse is compared "
-            "structurally with the uncached parse.  Plus %d prefix lengths of the stored pickle (E3), each with and without "
-            "a module reload." % (depth, devs, len(_CFG["events"]), len(jobs)),
+            "fault, parse of a near-duplicate text) over %d events: parse(text in OK1/OK2/BAD, expiration, always_update), "
+            "parse(default flags) of %d near-duplicate texts (OK3 with a multi-line, blank-, tab-, case- and accent-carrying "
+            "string literal, and its image under: LF->CRLF, strip trailing blanks, collapse blank runs, expand tabs, lower "
+            "case, other accent, NFD -- all different texts with different trees), module reload, versions v1/v2/v1.dirty, "
+            "clock +2d/+40d, stored pickle emptied/halved/garbage/class-gone, tables re-laid-out or dropped, metadata keys "
+            "deleted, file garbage/truncated/zero/deleted; state = abstraction of the database (layouts, metadata keys, "
+            "rows with key prefix, version, data hash and age bucket), process-initialised flag, version, and per text the "
+            "number of results handed out in this process (0..%d+); every parse is compared structurally with the uncached "
+            "parse of the same text, after which the caller edits the returned tree in place (every reachable container "
+            "and pymoca object) and keeps it.  Plus %d prefix lengths of the stored pickle (E3), each with and without a "
+            "module reload." % (depth, devs, len(_CFG["events"]), len(FAMILY), HANDED_CAP[ctx.tier], len(jobs)),
         }
     )
     ctx.assumptions += [
         "one process, one folder (sharing is C02); pickles that load to a foreign *object* are outside the alphabet",
         "clock and pymoca.__version__ are seams set by the harness (as the repository's own cache tests do)",
+        "process state of the cache lives in pymoca.parser: importlib.reload(parser) stands for a new process (a verdict "
+        "reached after sibling events ran in the same worker is re-derived from the history alone before it is reported)",
+        "near-duplicates whose trees are equal (leading / trailing blank lines, a BOM, comments) cannot violate the statement "
+        "and are not in the alphabet; the normalisation family is the stated one, parsed with default flags only",
     ]
 
 
@@ -509,6 +709,9 @@ def replay(case):
     w = build(())
     ok = True
     for ev in case["history"]:
+        if not w.enabled(tuple(ev)) and not (ev[0] == "ENTRY" and ev[1] == "prefix"):
+            print(ev, "-> not enabled here: this history is outside the alphabet")
+            return True
         v = w.apply(tuple(ev))
         print(ev, "->", [m for _, m in v] or "ok")
         ok = ok and not v
